@@ -1,0 +1,25 @@
+//! Verification hook: address of an identifier buffer (never dereferenced).
+
+use super::{
+    Identifier,
+    IdentifierRef,
+};
+use crate::registry::Registry;
+
+impl<R> Identifier<R>
+where
+    R: Registry,
+{
+    pub(crate) fn verif_address(&self) -> usize {
+        self.pointer as usize
+    }
+}
+
+impl<R> IdentifierRef<R>
+where
+    R: Registry,
+{
+    pub(crate) fn verif_address(&self) -> usize {
+        self.pointer as usize
+    }
+}
